@@ -207,8 +207,13 @@ def extremes (pos : List V3) (n p0 : V3) : Option (Rat × Rat × V3 × V3) :=
   | a :: t, b :: u => some (dmin, dmax, lexMin a t, lexMax b u)
   | _, _ => none
 
+/-- the regularity test of the `allow_missing_positions` branch on one multiple: `np.allclose(m, m.round(), rtol=0,
+atol=rtol + atol/|spacing|)` with the default `rtol = 0.01`, `atol = 0` — within 1 % of a spacing of a whole multiple,
+whatever the plane number (/repo 95f2029) -/
+def nearWhole (m : Rat) : Bool := rabs (m - (roundHalfEven m : Rat)) ≤ tolSpacing
+
 /-- `allow_missing_positions=True`: spacing is the hint (or the smallest gap), every distance must be a
-whole multiple of it (within `rtol`), the multiples are the volume positions -/
+whole multiple of it (within 1 % of the spacing), the multiples are the volume positions -/
 def regularMissing (ds du : List Rat) (dmin : Rat) (hint : Option Rat) (perp : Bool) : Option (Rat × List Int) :=
   let spacing? : Option Rat := match hint with
     | some h => some h
@@ -220,7 +225,7 @@ def regularMissing (ds du : List Rat) (dmin : Rat) (hint : Option Rat) (perp : B
   | some sp =>
     if sp == 0 then none else
     let mult := ds.map (fun d => (d - dmin) / sp)
-    let regular := mult.all (fun m => isClose m (roundHalfEven m : Rat) tolSpacing)
+    let regular := mult.all nearWhole
     if regular && perp then some (rabs sp, mult.map roundHalfEven) else none
 
 /-- "Inferred spacing does not match the given spacing_hint" -/
